@@ -305,6 +305,15 @@ class Family:
         """list of (optag, kind, fn(state) -> op | None); kind in 'query' | 'edit'"""
         raise NotImplementedError
 
+    def extra(self):
+        """More alphabet entries, used by this driver only (the C09 driver reuses alphabet() and compares runs
+        with different cached flags: values assigned to cells whose flag varies have no meaning there)."""
+        return []
+
+
+def alphabet_of(fam):
+    return fam.alphabet() + fam.extra()
+
 
 def _cached(st, path, c):
     return st["flags"].get((path, c), True)
@@ -478,9 +487,6 @@ class Cross(Family):
         def delspace(st):
             return ("delspace", "T") if "T" not in st["deleted_spaces"] else None
 
-        def delchild(st):
-            return ("delspace", "T.Ch") if not _gone(st, "T.Ch") else None
-
         def rename(st):
             return ("rename", "T", "b", "bb") if _alive(st, "T", "b") and ("T", "b") not in st["renamed"] else None
         return [q("q-top", "S", "a"), q("q-top-via-ref", "S", "a2"), q("q-mid-otherspace", "T", "b"), q("q-leaf", "S", "c"),
@@ -490,9 +496,13 @@ class Cross(Family):
                 ("new-cells-otherspace", "edit", lambda st: ("newcells", "T", "n%d" % st["step"], F("n%d" % st["step"], "", "1", "T.n", "()"), True)
                  if not _gone(st, "T") else None),
                 e_simple("space-clear-all", ("space_clear_all", "S")), e_flip("flip-mid", "T", "b"),
-                e_input("input-leaf", "S", "c", (), 50),
-                # values assigned by the user that are held when their space is deleted, and their dependents elsewhere
-                q("q-top-via-childspace", "S", "a3"), e_input("input-mid-otherspace", "T", "b", (), 40),
+                e_input("input-leaf", "S", "c", (), 50)]
+
+    def extra(self):
+        """Values assigned by the user that are held when their space is deleted, and their dependents elsewhere."""
+        def delchild(st):
+            return ("delspace", "T.Ch") if not _gone(st, "T.Ch") else None
+        return [q("q-top-via-childspace", "S", "a3"), e_input("input-mid-otherspace", "T", "b", (), 40),
                 e_input("input-childspace-leaf", "T.Ch", "k", (), 30), ("del-child-space", "edit", delchild)]
 
 
@@ -605,9 +615,11 @@ class Items(Family):
                 e_flip("flip-item-leaf", "P", "u"), e_formula("formula-item-mid", "P", "c", [self.C2]),
                 ("new-cells-in-parametrised", "edit", lambda st: ("newcells", "P", "n%d" % st["step"], F("n%d" % st["step"], "", "1", "P.n", "()"), True)),
                 e_simple("change-space-formula", ("raw", "m.P.formula = 'lambda i, j=0: None'")),
-                e_clear("clear_at-top", "clear_at", "S", "top", ()),
-                # values assigned by the user in cells of an ItemSpace, held when the ItemSpace is deleted
-                ("input-item-leaf", "edit", lambda st: ("input", "P[1]", "u", (2,), 77) if _cached(st, "P", "u") else None),
+                e_clear("clear_at-top", "clear_at", "S", "top", ())]
+
+    def extra(self):
+        """Values assigned by the user in cells of an ItemSpace, held when the ItemSpace is deleted."""
+        return [("input-item-leaf", "edit", lambda st: ("input", "P[1]", "u", (2,), 77) if _cached(st, "P", "u") else None),
                 e_simple("input-item-mid", ("input", "P[2]", "c", (1,), 88)),
                 e_simple("del-item", ("raw", "for _s in [s for s in m.P.itemspaces.values() if s.argvalues[0] == 1]:\n    del m.P[1]"))]
 
@@ -686,7 +698,7 @@ def run_history(item):
     fam = FAMILIES[fi]
     flags = dict(zip(fam.flagged, flagbits))
     spec = fam.spec(flags)
-    alpha = fam.alphabet()
+    alpha = alphabet_of(fam)
     st = new_state(fam, flags, spec)
     ftags = ["family:" + fam.name] + ["uncached:%s.%s" % f for f, v in sorted(st["flags"].items()) if not v]
     out = {"key": (fam.name, flagbits, hist), "fails": [], "nontrivial": False, "skipped": False,
@@ -748,7 +760,7 @@ def run_history(item):
 def enumerate_items(tier, rng):
     items = []
     for fi, fam in enumerate(FAMILIES):
-        alpha = fam.alphabet()
+        alpha = alphabet_of(fam)
         n = len(alpha)
         qs = [i for i, a in enumerate(alpha) if a[1] == "query"]
         es = [i for i, a in enumerate(alpha) if a[1] == "edit"]
@@ -774,7 +786,7 @@ def enumerate_items(tier, rng):
     for i in range(nrand):
         fi = rng.randrange(len(FAMILIES))
         fam = FAMILIES[fi]
-        n = len(fam.alphabet())
+        n = len(alphabet_of(fam))
         bits = tuple(bool(rng.randrange(2)) for _ in fam.flagged)
         L = rng.choice((4, 4, 5)) if tier != "quick" else 4
         items.append((fi, bits, tuple(rng.randrange(n) for _ in range(L))))
